@@ -98,7 +98,11 @@ def forbidden_scan() -> List[str]:
     hits = []
     for path in lean_sources():
         # the driver plumbing may use `partial`; nothing else is exempt
-        src = _strip_lean_comments(open(path, encoding="utf-8").read())
+        try:
+            src = _strip_lean_comments(open(path, encoding="utf-8").read())
+        except FileNotFoundError:
+            # the transient `#print axioms` file of another check running at the same time
+            continue
         for m in FORBIDDEN.finditer(src):
             line = src.count("\n", 0, m.start()) + 1
             hits.append(f"{os.path.relpath(path, ROOT)}:{line}: {m.group(0).strip()}")
